@@ -1,5 +1,5 @@
 /-
-C20 (continued) — random scheduler: Push keeps per-stream order (appends at the end of the stream's queue).
+C20 (continued) — random and round-robin schedulers: Push keeps per-stream order (appends at the end of the stream's queue).
 -/
 import FpVerif.Properties.C20_Random
 set_option linter.unusedSimpArgs false
@@ -47,5 +47,13 @@ theorem push_fifo_random (s : St) (r : Req) (sid : Nat) (hs : r.sid = some sid) 
       simp at hh
       exact List.mem_map.mpr ⟨e, he, hh⟩
     simp [this]
+
+/-- PUSH KEEPS PER-STREAM ORDER (round robin): a frame for an open stream goes to the END of that stream's queue; Pop
+consumes from the FRONT (`popRR_stream`, `consume_spec`): frames of one stream leave in the order they were pushed -/
+theorem push_fifo_rr (s : St) (r : Req) (sid : Nat) (q : List Req) (hs : r.sid = some sid) (hq : queueOf s sid = some q) :
+    (pushRR s r).2 = .none_ ∧ queueOf (pushRR s r).1 sid = some (q ++ [r]) := by
+  unfold pushRR
+  simp only [hs, hq]
+  exact ⟨trivial, queueOf_setQueue_self s sid q _ hq⟩
 
 end Fp.C20
